@@ -96,8 +96,20 @@ def daqmx_file(draw, max_segments=3, max_channels=4, max_buffers=3, max_len=5, m
             buffers.append([draw(st.binary(min_size=eff_lens[b] * widths[b], max_size=eff_lens[b] * widths[b]))
                             for b in range(nbuf)])
         seg_be = (draw(st.booleans()) if fixed_be is None else fixed_be) if be else False
+        active_entries = list(ok_entries)
+        if si > 0:
+            # channels defined in earlier segments may be re-listed as having no data in this one
+            seen_before = []
+            for prev in segs:
+                for e in prev['entries']:
+                    if e.get('hdr') == 'daqmx' and e['path'] not in seen_before:
+                        seen_before.append(e['path'])
+            here = set(e['path'] for e in ok_entries)
+            for pth in seen_before:
+                if pth not in here and draw(st.booleans()):
+                    ok_entries = ok_entries + [{'path': pth, 'hdr': 'nodata'}]
         segs.append({'be': seg_be, 'interleaved': False, 'version': 4713, 'meta': True, 'newlist': True, 'daqmx': True,
-                     'entries': ok_entries, 'active': [[e['path'], 'daqmx', e['n']] for e in ok_entries],
+                     'entries': ok_entries, 'active': [[e['path'], 'daqmx', e['n']] for e in active_entries],
                      'nchunks': nchunks, 'buffers': buffers, 'buf_lens': eff_lens, 'widths': list(widths)})
     return {'segments': segs}
 
